@@ -88,7 +88,10 @@ pub fn provider_outcome(script: &ProviderScript, q: &KeyQuery) -> ProvOutcome {
         }
     };
     if let Some(e) = &script.ready_err {
-        return ans(e);
+        return match e {
+            Answer::Lookup => ProvOutcome::Foreign("not ready".into()),
+            other => ans(other),
+        };
     }
     ans(&script.answer)
 }
@@ -334,6 +337,13 @@ pub fn analyze(case: &Case) -> Analysis {
         unspec!(R_CARRIER, "an X-Amz-* authentication parameter name in different letter case");
     }
     a.canonical_query = Some(canonical_query(&a.merged_pairs));
+    if a.folded {
+        let len = a.canonical_path.as_ref().map(|p| p.len()).unwrap_or(1) + 1 + a.canonical_query.as_ref().unwrap().len();
+        if len > 65_000 {
+            // the rebuilt URI cannot be returned through http::request::Parts (64 KiB cap): acceptance is impossible by API
+            unspec!(R_QUERY, "merged URI after folding exceeds what http::Uri can hold");
+        }
+    }
 
     // ---- rule 5: carrier
     let auth_headers: Vec<&B> =
